@@ -126,6 +126,10 @@ def stream_mutants(r, tr, tier, res):
         # ---- truncation and trailing garbage
         obs = tr.obs(sidx)
         ks = range(0, len(obs)) if thorough else sorted(r.sample(range(0, len(obs)), min(len(obs), 10)))
+        # always: no file content at all, a partial header, the 8-byte header alone (a stream without events next
+        # to streams that have some: seeded C19-7 read the first event of the first stream unconditionally), one
+        # byte of the first event, the first event header short by one, the first event header complete
+        ks = sorted(set(ks) | {k for k in (0, 4, 7, 8, 9, 19, 20) if k < len(obs)})
         for k in ks:
             t = tr.clone()
             t.streams[sidx][0].raw_obs = obs[:k]
@@ -264,7 +268,8 @@ def all_mutants(r, tier, tabs, res):
     muts = deep_nesting_mutants(r, tabs) + open_region_mutants(r, tabs)
     mtr = multi_unsorted_seed(r, tabs)
     muts.append(Mut("control", "multi-stream unsorted seed", mtr))
-    muts += stream_mutants(r, mtr, "quick", res)[:40]
+    mm = stream_mutants(r, mtr, "quick", res)
+    muts += mm[:40] + [m for m in mm[40:] if m.op == "truncate" and " cut at 8/" in m.label]
     nseeds = 2 if tier == "quick" else 6
     for i in range(nseeds):
         tr = unsorted_seed(r, tabs) if i % 3 == 1 else L.seed_trace(r, tabs, ["jumbo", "one", "models", "two"][i % 4])
